@@ -65,11 +65,14 @@ namespace glm
 			vec<3, T, Q> const& rgbColor
 		)
 		{
+			// Add and subtract on the unsigned type: the lifting steps are reversible modulo 2^n,
+			// but signed overflow is undefined when the channels use the full range of a signed type
+			typedef typename detail::make_unsigned<T>::type UT;
 			vec<3, T, Q> result;
-			result.y/*Co*/ = rgbColor.r - rgbColor.b;
-			T tmp = rgbColor.b + (result.y >> 1);
-			result.z/*Cg*/ = rgbColor.g - tmp;
-			result.x/*Y */ = tmp + (result.z >> 1);
+			result.y/*Co*/ = static_cast<T>(static_cast<UT>(rgbColor.r) - static_cast<UT>(rgbColor.b));
+			T tmp = static_cast<T>(static_cast<UT>(rgbColor.b) + static_cast<UT>(result.y >> 1));
+			result.z/*Cg*/ = static_cast<T>(static_cast<UT>(rgbColor.g) - static_cast<UT>(tmp));
+			result.x/*Y */ = static_cast<T>(static_cast<UT>(tmp) + static_cast<UT>(result.z >> 1));
 			return result;
 		}
 
@@ -78,11 +81,12 @@ namespace glm
 			vec<3, T, Q> const& YCoCgRColor
 		)
 		{
+			typedef typename detail::make_unsigned<T>::type UT;
 			vec<3, T, Q> result;
-			T tmp = YCoCgRColor.x - (YCoCgRColor.z >> 1);
-			result.g = YCoCgRColor.z + tmp;
-			result.b = tmp - (YCoCgRColor.y >> 1);
-			result.r = result.b + YCoCgRColor.y;
+			T tmp = static_cast<T>(static_cast<UT>(YCoCgRColor.x) - static_cast<UT>(YCoCgRColor.z >> 1));
+			result.g = static_cast<T>(static_cast<UT>(YCoCgRColor.z) + static_cast<UT>(tmp));
+			result.b = static_cast<T>(static_cast<UT>(tmp) - static_cast<UT>(YCoCgRColor.y >> 1));
+			result.r = static_cast<T>(static_cast<UT>(result.b) + static_cast<UT>(YCoCgRColor.y));
 			return result;
 		}
 	};
